@@ -91,13 +91,13 @@ def verify(name, suite=False, tier="quick", checks=None):
                             if l.strip().startswith("violation mechanism=")})
             res[c] = {"rc": r.returncode, "tier": tier, "mechanisms": mechs}
         meta.setdefault("check_results", {}).update(res)
-        meta["caught"] = any(v["rc"] == 1 for v in meta["check_results"].values())
+        meta["caught"] = any(v["rc"] == 1 for v in res.values())
         meta["ran"] = [f"demo on HEAD (rc {rc0}), demo with patch (rc {rc1})"] + \
                       ([f"repo suite with patch: {meta.get('suite_with_patch')}"] if meta.get("suite_with_patch") else []) + \
                       [f"./check {c} --tier {tier} with VERIF_REPO=<patched worktree> -> rc {v['rc']}" for c, v in res.items()]
         json.dump(meta, open(os.path.join(d, "meta.json"), "w"), indent=1)
-        print(f"{name}: demo {rc0}->{rc1} suite={meta.get('suite_with_patch_rc')} "
-              f"{'CAUGHT' if meta['caught'] else 'MISSED'} {json.dumps(res)[:300]}")
+        verdict = "CAUGHT" if meta["caught"] else ("SUPERSEDED" if meta.get("superseded") and rc1 == 0 else "MISSED")
+        print(f"{name}: demo {rc0}->{rc1} suite={meta.get('suite_with_patch_rc')} {verdict} {json.dumps(res)[:300]}")
         return meta
     finally:
         drop_worktree(wt)
